@@ -149,6 +149,11 @@ class Timeline(object):
         self.options = {k: v for k, v in DEFAULT_OPTIONS.items()}
         if options:
             self.options.update(options)
+        # the defaults are module-level objects: give every instance its own
+        # scale and engine options unless the caller supplied them
+        if "scale" not in options:
+            self.options["scale"] = DEFAULT_OPTIONS["scale"].copy()
+        self.options["labella"] = dict(self.options["labella"])
         self.direction = self.options["direction"]
         self.options["labella"]["direction"] = self.direction
         # parse items
